@@ -509,8 +509,27 @@ pub fn check_db(ctx: &mut Ctx, db: &'static Database, db_name: &str, items: &[St
                 if request {
                     s.c_data(&bytes);
                 } else {
-                    s.c_data(b"GET / HTTP/1.1\r\nHost: a\r\n\r\n");
-                    s.s_data(&bytes);
+                    // what the client did before the response is no part of the response's
+                    // conformance: an ordinary request, no visible request at all (one-directional
+                    // tap), a request with a method outside the analyzer's list, or a request
+                    // that only arrives after the response
+                    match (v + idx) % 4 {
+                        0 => {
+                            s.c_data(b"GET / HTTP/1.1\r\nHost: a\r\n\r\n");
+                            s.s_data(&bytes);
+                        }
+                        1 => {
+                            s.s_data(&bytes);
+                        }
+                        2 => {
+                            s.c_data(b"PURGE /cached HTTP/1.1\r\nHost: a\r\n\r\n");
+                            s.s_data(&bytes);
+                        }
+                        _ => {
+                            s.s_data(&bytes);
+                            s.c_data(b"GET / HTTP/1.1\r\nHost: a\r\n\r\n");
+                        }
+                    }
                 }
                 let mut a = huginn_net_http::HuginnNetHttp::new(Some(scenario::db()), 16).expect("http analyzer");
                 let mut matched: Option<String> = None;
